@@ -54,7 +54,7 @@ prop("C04", ["EXP-1", "LAY-1", "LAY-3", "WID-3", "WID-6", "ENC-6", "ENC-7", "ESC
      "over all statements (definition order irrelevant); undefined symbols raise; width predicates and two's-complement modulus follow the field width; statement-level handlers turn arithmetic errors "
      "(division by zero, out-of-range results) into a TranslationError.",
      "the arithmetic value of an expression for concrete operands and reduction modulo 65536; the address-expression path (calculate_address_offset) carries recorded findings.", ASM_ASSUME)
-prop("C05", ["DIR-1", "WID-3", "WID-8", "WID-1", "TAB-1", "TXT-1~^(?!parse_line:(label-spelling|operand-whole))", "ENC-7", "TXT-2", "WID-9"],
+prop("C05", ["DIR-1", "WID-3", "WID-8", "WID-1", "TAB-1", "TXT-1~^(?!parse_line:(label-spelling|operand-whole))", "ENC-7", "TXT-2", "WID-9", "LAY-1~Statement.set_address:emits"],
      "every pseudo row either has an emitting arm (FCB, FDB, FCC, RMB) with the directive's width/size facts (element widths 2/4 hex digits, single values hint 2/4 size 1/2, RMB n -> n zero bytes, "
      "self-sized lists and strings) or reaches the empty CodePackage; list separators; string delimiters must match; FCC's closing delimiter is the first occurrence after the opening one; "
      "two's-complement rendering at the directive's width.",
@@ -63,25 +63,25 @@ prop("C06", ["CAS-1~:(name|name-source|name-filter|source|field\\d+\\(\\w+\\)|fi
      "the reader consumes exactly the frames the writer produces: header signature, each header field read at the offset the writer stores it and delivered to the matching CoCoFile field, "
      "name length, where block search resumes, data blocks stepped over by exactly 4 + len + 2 with payload copied from offset 4, EOF frame length; writers never modify the data they are given.",
      "equality of data for all contents and lengths; tolerance of arbitrary foreign tapes.")
-prop("C07", ["DSK-1", "DSK-2", "DSK-3", "DSK-4", "DSK-5", "DSK-12", "DSK-13", "VF-8", "CAS-3", "DET-2~^(?!Program\\.|Statement\\.)", "DSK-8", "DSK-7~granule_in_use"],
+prop("C07", ["DSK-1", "DSK-2", "DSK-3", "DSK-4", "DSK-5", "DSK-12", "DSK-13", "VF-8", "CAS-3", "DET-2~^(?!Program\\.|Statement\\.|assembler:)", "DSK-8", "DSK-7~(granule_in_use|first-free)"],
      "geometry constants and the granule->offset map for all 68 granules; directory entry layout of writer and reader against the Disk BASIC layout with bounded field writes; preamble/postamble "
      "read/write siblings agree on flags, offsets and lengths and on which file kind gets which; FAT links, terminator C0+sectors, reader masks; stream length computed identically by the three "
      "length functions (with and without trailer), sector and granule counts consistent for every length.",
      "equality of contents for all lengths, arbitrary foreign images; granule-bounded placement of the trailer (recorded finding DSK-5 is not re-derived statically).")
-prop("C08", ["DSK-1", "DSK-2~^(?!list_files)", "DSK-4~^(?!calculate_file_length|read_data|list_files)", "DSK-5", "DSK-6", "DSK-7", "DSK-12", "DSK-13", "DSK-8~^(?!add_file:allocation:(fit|refusal))", "DSK-3", "VF-1~:errors$"],
+prop("C08", ["DSK-1", "DSK-2~^(?!list_files)", "DSK-4~^(?!calculate_file_length|read_data|list_files)", "DSK-5", "DSK-6", "DSK-7", "DSK-12", "DSK-13", "DSK-8~^(?!add_file:allocation:(fit|refusal))", "DSK-3~^(?!list_files:table-lookup)", "VF-1~:errors$"],
      "image size and track-17 offsets; FAT encoding written and read (links, last-granule marker with 1-9 sectors, free marker FF only); blanking confined to FAT bytes 68-255; allocation only "
      "from granules whose FAT byte is FF, marked before the next search; fill order a permutation of 0..67; implied length (sectors, last-sector bytes) equals the stream length by construction.",
      "chain disjointness and length arithmetic for concrete file sequences.")
-prop("C09", ["VF-1", "VF-4", "VF-6", "VF-8", "CAS-5", "DSK-5", "DSK-7", "DSK-6", "CAS-4", "CAS-3", "DET-2~^(?!Program\\.|Statement\\.)", "DSK-12", "DSK-13", "VF-5", "DSK-8~^(?!add_file:allocation:)", "CLI-4~:(kind|open|save|end):", "VF-9", "DSK-4", "DSK-2~list_files:name-text", "DET-3~^VirtualFile"],
+prop("C09", ["VF-1", "VF-4", "VF-6", "VF-8", "CAS-5", "DSK-5", "DSK-7", "DSK-6", "CAS-4", "CAS-3", "DET-2~^(?!Program\\.|Statement\\.|assembler:)", "DSK-12", "DSK-13", "VF-5", "DSK-8~^(?!add_file:allocation:)", "CLI-4~:(kind|open|save|end):", "VF-9", "DSK-4", "DSK-2~list_files:name-text", "DET-3~^VirtualFile", "DSK-3~list_files:table-lookup"],
      "append = list the existing image, append the new file at the end, rebuild the whole list in order into a fresh container; cassette writers only append to the buffer; disk allocation only takes "
      "free granules and free directory slots; a fresh DiskFile owns its own buffer (no shared class-level image); sniffing order disk, cassette, binary with matching kinds.",
      "the property over histories of interleaved add/save/re-open; kind recognition by content (recorded finding VF-6).")
-prop("C10", ["VF-1~^save_virtual_file", "VF-2", "VF-3", "VF-4", "VF-6", "VF-8", "CLI-1", "CLI-3", "VF-5~^(?!add_coco_file)", "CLI-4~:(kind|open|save|end):", "CLI-5~:(kind|sequence|append):", "VF-9"],
+prop("C10", ["VF-1~^save_virtual_file", "VF-2", "VF-3", "VF-4", "VF-6", "VF-8", "CLI-1", "CLI-3", "VF-5~^(?!add_coco_file)", "CLI-4~:(kind|open|save|end):", "CLI-5~:(kind|sequence|append):", "VF-9", "CAS-5~read_file:refuses-field"],
      "every path to a host write in save_virtual_file takes the false edge of `file_exists and not append_mode`, whose true edge only raises; the only host write is open(name, 'wb') in "
      "SourceFile.write_binary_contents, reached only through write_file from save_virtual_file and writing the whole buffer; file_exists is set exactly under os.path.exists; a kind mismatch raises; "
      "every CLI save site goes construct -> open -> add* -> save(append_mode=args.append) with the container kind of its switch; handlers report the error.",
      "nothing further of the control-flow part; content sniffing of arbitrary bytes is a recorded finding.")
-prop("C11", ["CLI-1", "VF-1", "VF-3", "CAS-3", "CAS-1", "CAS-5", "DSK-2", "DSK-3", "DSK-5", "DSK-12", "DSK-13", "LAY-1", "DET-2~^(?!Program\\.|Statement\\.)", "WID-10", "VF-5", "DSK-8~^(?!add_file:allocation:)", "CLI-5", "VF-9", "DSK-1~seek_granule"],
+prop("C11", ["CLI-1", "VF-1", "VF-3", "CAS-3", "CAS-1", "CAS-5", "DSK-2", "DSK-3", "DSK-5", "DSK-12", "DSK-13", "LAY-1", "DET-2~^(?!Program\\.|Statement\\.)", "WID-10", "VF-5", "DSK-8~^(?!add_file:allocation:)", "CLI-5", "VF-9", "DSK-1~seek_granule", "DSK-6~GRANULE_FILL_ORDER"],
      "the single CoCoFile built by assembler.main takes name = NAM or --name, load = exec = origin, data = get_binary_array() of the Program that was assembled, type 02, data type 00; each switch "
      "builds the container of its kind and adds that very object; cassette/disk blocks are dominated by the no-name guard; BinaryFile appends the data only; containers do not consume the data "
      "(the same object is written to several containers).",
@@ -101,11 +101,11 @@ prop("C14", ["CAS-1~^(?!.*:(name-source|name-filter|source)$).*", "CAS-4", "CAS-
      "established by pairing every byte written with a checksum term, trailer 55; data payload byte i = data[i], continuation at the number of bytes written; file order leader, name-file, leader, "
      "data, EOF; only appends.",
      "nothing input-dependent: this property is decided completely under the stated assumptions.", ["data bytes are 0..255 and name characters are single-byte"])
-prop("C15", ["DSK-6", "DSK-7", "DSK-12", "DSK-13", "DSK-4~^(?!calculate_file_length|read_data|list_files)", "VF-1", "DET-2~^(?!Program\\.|Statement\\.)", "DET-3", "CLI-3", "VF-5", "DSK-8~(:allocation|:fat|:length|:directory|:data|:sequence|allocation-count|size-guard|length-kind|\\[empty)", "VF-2", "CLI-4~:(save|end):", "DSK-2~write_dir_entry:(nul|name-characters)"],
+prop("C15", ["DSK-6", "DSK-7", "DSK-12", "DSK-13", "DSK-4~^(?!read_data|list_files)", "VF-1", "DET-2~^(?!Program\\.|Statement\\.|assembler:)", "DET-3", "CLI-3", "VF-5", "DSK-8~(:allocation|:fat|:length|:directory|:data|:sequence|allocation-count|size-guard|length-kind|\\[empty)", "VF-2", "CLI-4~:(save|end):", "DSK-2~write_dir_entry:(nul|name-characters)"],
      "the fill order offers all 68 granules once; allocation only of free granules, exhaustion raises; directory scan covers at least 68 slots and a full directory raises; granule count = "
      "floor(stream/2304)+1 for every stream length; the image is rebuilt in memory before the host file is touched.",
      "exact granule counts for concrete sequences of additions.")
-prop("C16", ["CLI-3", "VF-1", "VF-3", "VF-8", "DET-3", "CAS-3", "CAS-5", "DSK-2", "DSK-3", "DSK-12", "DSK-13", "DSK-4", "VF-5", "DSK-8", "CLI-4", "VF-9", "VF-6", "DSK-5", "VF-4~^get_coco_files"],
+prop("C16", ["CLI-3", "VF-1", "VF-3", "VF-8", "DET-3", "CAS-3", "CAS-5", "DSK-2", "DSK-3", "DSK-12", "DSK-13", "DSK-4", "VF-5", "DSK-8", "CLI-4", "VF-9", "VF-6", "DSK-5", "VF-4~^get_coco_files", "CAS-1~append_name:bytes:name"],
      "conversion loops add every listed file itself, in listing order, filtered only by --files, and save once; both sides of the --files comparison carry the same case normalisation; --to_bin "
      "refuses more than one file before any add/save; reader/writer layouts of both containers agree; stream-length arithmetic for all file kinds.",
      "equality of the converted file set for concrete images.")
@@ -118,7 +118,7 @@ prop("C18", ["TXT-1", "EXP-1", "LAY-1", "WID-3", "WID-8", "DIR-1~^(?!.*:elements
      "the mnemonic is upper-cased before lookup; the line pattern splits label/mnemonic/operands for any amount of white space; accumulator offsets are recognised by whole-string comparison "
      "(no substring tests on operand text); addresses are prefix-determined (single forward pass); one-byte width only for values <= 255.",
      "the metamorphic relations themselves (relocation, renaming, reformatting) for concrete programs.", ASM_ASSUME)
-prop("C19", ["INC-1", "LAY-0", "LAY-1~translate_statements:(phases|order)$", "TERM-1~process_mnemonics"],
+prop("C19", ["INC-1", "LAY-0", "LAY-1~translate_statements:(phases|order)$", "TERM-1~process_mnemonics", "TXT-1~parse_line:operand-whole"],
      "process_mnemonics iterates its input in order, keeps every ordinary statement, splices the recursive parse+expansion of the included file at the INCLUDE's position, opens the operand as "
      "written through the assembly reader, expansion precedes symbol collection; missing files and inclusion cycles raise a TranslationError.",
      "image equality with the spliced program for concrete programs.")
